@@ -10,6 +10,7 @@ from ..oracles import landscape as L
 from ..strategies import finite, valid_family
 from . import _land as LD
 
+FUZZ = ["half_step"]
 RULE = ("Diagrams of 1..10 finite bars (lattice ties / ulp-perturbed / floats; optional infinite bars, which the class documents it removes) "
         "on grids with num_steps in 2..200 covering the diagram (tight, padded or the default None), endpoints on nodes, off nodes and exactly "
         "half-way between nodes.")
